@@ -33,6 +33,8 @@ class Task:
                                         else {"function": q})
             I = Interp(repo, self.config(repo))
             I.explore(self.body)
+            if I.path_errors:
+                out["undecided"] = "; ".join(I.path_errors[:3])
             out["records"] = [r.to_json() for r in I.records]
             out["models"] = sorted(I.used_models)
             out["summaries"] = sorted(I.used_summaries)
